@@ -52,7 +52,7 @@ Lemma src_taproot_digest_eq : forall sha256 (i : nat) spks ams ext sc lv ht v in
   of_option (taproot_digest sha256 {| tx_version := v; tx_inputs := ins; tx_outputs := outs; tx_locktime := l; tx_segwit := sw; tx_witnesses := w |}
                i spks ams ext sc ht).
 Proof.
-  intros. unfold src_taproot_digest, taproot_digest, taproot_sigmsg, obind.
+  intros. unfold src_taproot_digest. not_fallback (@taproot_digest). unfold taproot_digest, taproot_sigmsg, obind.
   cbn [tx_version tx_inputs tx_outputs tx_locktime tx_segwit tx_witnesses]. cbv zeta.
   change (py_bytes1 0) with (Some [0]). cbv beta iota.
   rewrite !bytes1_eq.
